@@ -24,7 +24,8 @@ FORMAT = ("script [flags: bit0 0=NoErrorInjection 1=CustomErrorFn, bits1-4 build
           "same first-poll discipline) made the same decisions; "
           "per request 15 ints: n_log, k0, k1, k2 (logged draw kinds 0 error roll/1 latency roll/2 delay, -1 pad), "
           "listener events error, latency, pass, reported delay ms (-1), inner_called, t_call, t_poll (-1 never), "
-          "t_inner (-1), res_kind (0 Ok 1 Err -1 pending), res_val, t_done (-1); n_draws; draw values]")
+          "t_inner (-1), res_kind (0 Ok 1 Err -1 pending), res_val, t_done (-1); n_draws; draw values; n; per request the first "
+          "8 ints of the record of a SECOND service built from the same layer value and driven afterwards (model only)]")
 RULE = ("random configurations: rates from {0, -0, 1, 1/2, 2^-53, 2^-54, subnormal, 1-2^-53, >1, inf, negative, NaN, "
         "random in [0,1]} x latency bounds (min<max, min=max, min>max, same millisecond, zero, sub-millisecond, 40 ms..3 s, "
         "2^32+-1 ms, 49.7 days, u64::MAX ms, 2^64 ms and more (saturated), Duration::MAX) x 16 builder routes (8 of them replace the "
@@ -39,6 +40,11 @@ ASSUMPTIONS = ["rand 0.9: Rng::random::<f64>() returns k/2^53 in [0,1) (src/dist
                "rand 0.9: random_range(lo..=hi) returns a value in [lo, hi] — checked on every logged delay by the "
                "correspondence comparison; the property monitor checks the injected latency itself",
                "StdRng::seed_from_u64 is a deterministic function of the seed — checked by the lock-step instance pair",
+               "reading of 'the chaos layer's sequence': per SERVICE. The crate seeds one generator per service built by layer() "
+               "from the configuration, so a second service of the same layer value repeats the first one's sequence; the model "
+               "pins that (trace tail, correspondence only). The monitor is silent on it: a layer-wide generator shared by the "
+               "services of one layer value (one sequence per layer, continued across its services) is the other reading of the "
+               "text and is reported as correspondence-only (seeded/C19-t4x)",
                "rates outside [0,1] are clamped by the builder; a NaN rate is outside the property's quantifier (modelled as the code behaves)",
                "a latency bound of 2^64 ms (584 million years) or more is saturated at u64::MAX ms by the service (fix 37727a1; "
                "Duration::from_millis cannot express more): '[min_latency, max_latency]' is read with min saturated there "
@@ -329,8 +335,10 @@ def decode(s, t):
         return None
     recs = [t[1 + REC * i: 1 + REC * (i + 1)] for i in range(n)]
     nd = t[1 + REC * n]
-    bits = t[2 + REC * n:]
-    if len(bits) != nd:
+    bits = t[2 + REC * n:2 + REC * n + nd]
+    rest = t[2 + REC * n + nd:]
+    # rest = [n; 8 ints per request]: the second service built from the same layer value (not judged by the monitor)
+    if len(bits) != nd or len(rest) != 1 + 8 * n or rest[0] != n:
         return None
     return t[0], recs, bits
 
